@@ -215,6 +215,23 @@ def run(ctx):
             elif vals2[kname][0] != "ok" or vals2[kname][1] > v[1] + 1e-12:
                 ctx.violation("oracle", {"call": kname, "pvalues": p.tolist(), "raised": q.tolist(), "size": size.tolist(),
                                          "issue": "combining function increased when a p-value was raised", "before": v[1], "after": vals2[kname][1:]}, site=kname)
+    # ---- a preallocated buffer refilled in place with new contents between two calls (a simulation loop): the second result must be
+    #      the one a fresh array with those contents gives (nothing may be remembered by object identity)
+    for _ in range(ctx.n(80, 800)):
+        B = ctx.rng.randint(3, 15); n = ctx.rng.randint(2, 4); plus1 = ctx.rng.random() < 0.5
+        comb_ = ctx.rng.choice(["fisher", "tippett", "liptak"])
+        D1 = [[ctx.rng.randint(0, 9) for _ in range(n)] for _ in range(B)]; D2 = [[ctx.rng.randint(0, 9) for _ in range(n)] for _ in range(B)]
+        pvf = np.array([ctx.rng.randint(1, 19) / 20 for _ in range(n)])
+        buf = np.array(D1, dtype=float)
+        ra = guarded(npc.npc, pvf, buf, comb_, plus1)
+        buf[...] = np.array(D2, dtype=float)
+        rb = guarded(npc.npc, pvf, buf, comb_, plus1)
+        rf = guarded(npc.npc, pvf.copy(), np.array(D2, dtype=float), comb_, plus1)
+        ctx.case(("refill", tuple(map(tuple, D1)), tuple(map(tuple, D2)), comb_, plus1), True); ctx.count("buffer-refilled-in-place")
+        if ra[0] != "ok" or rb[0] != "ok" or rf[0] != "ok" or rb[1] != rf[1]:
+            ctx.violation("oracle", {"call": "npc", "combine": comb_, "plus1": plus1, "pvalues": pvf.tolist(), "first_contents": D1, "second_contents": D2,
+                                     "issue": "npc on a buffer refilled in place differs from npc on a fresh array with the same contents (something is remembered by object identity)",
+                                     "refilled_buffer": str(rb[1:])[:60], "fresh_array": str(rf[1:])[:60]}, site="npc")
     # ---- user combining functions that are NOT symmetric in their arguments (per-test weights): the result must be the rank
     #      p-value of the definition with every weight staying on its own test, and relabelling tests *with their weights* changes nothing
     for _ in range(ctx.n(200, 2500)):
